@@ -11,9 +11,10 @@ The defaults: an absent timestamp is whatever the clock call answered; an absent
 number of data bytes written (`BucketPost` pins `size := o.size.getD (total bytes)`); absent
 metadata is `null`.
 The codec round trip `dec (enc r) = some r` for the serde/SHA-256 codec — the JSON half of "returned
-exactly" — is the hypothesis `Codec.Laws`; it is exercised by the C11/C17 correspondence against
-serde_json itself (type-directed JSON, 64-bit integer edges, control / non-ASCII strings,
-128-bit times, all 256 raw byte values).
+exactly" — is PROVED (`codec_laws`, `Lemmas/CodecLaws.lean`, for every well-formed record and every
+hash function; it used to be a hypothesis `Codec.Laws`); it is also exercised by the C11/C17
+correspondence against serde_json itself (type-directed JSON, 64-bit integer edges, control /
+non-ASCII strings, 128-bit times, all 256 raw byte values).
 -/
 import Cacache.Lemmas.ReadBack
 import Cacache.Lemmas.Stream
@@ -103,7 +104,10 @@ theorem metadata_returned_cacache (fs' : FS) (key : Bytes) (o : WriteOpts) (ho :
 any initial state with a valid store whose bucket for the key is absent or a regular file: if the
 keyed write answers ok, the lookup in the resulting state returns exactly what was supplied — the
 key, the digest of the bytes, the explicit time stamp (else a `u128` clock answer), the declared
-size (else the byte count), the JSON metadata (else null) and the raw metadata. -/
+size (else the byte count), the JSON metadata (else null) and the raw metadata.
+(The time here is SOME `tm ≤ timeMax`, equal to the caller's when one was given; that without an
+explicit time it is exactly the clock's answer `stamp env o` is pinned by the refinement theorems:
+`C08x.declared_match_total` / `CacheRefine.run_putKeyed` via `putSpec` / `insEntry`.) -/
 theorem write_then_metadata (fl : Flavour) (key : Bytes) (o : WriteOpts) (ho : OptsWF key o)
     (hnone : o.sri = none) (chunks : List Bytes) (hlen : chunks.flatten.length ≤ Rec.u64Max) (b0 : Bytes)
     (fs : FS) (hv : ContentValid cfg cache fs) (hb : BucketIs fs (bucketPath cfg cache key) b0)
